@@ -136,6 +136,15 @@ pub fn exec(ctx: &mut Ctx, op: &str, p: &mut Toks) -> String {
             let f = ActFn::create(&act_of(&name));
             let fwd = try_run(|| f.forward(&t));
             let bwd = try_run(|| f.backward(&t));
+            // a copy of the function value is the same function (layers are copied when a feedback block is unrolled)
+            {
+                let c = f.clone();
+                let (cf, cb) = (try_run(|| c.forward(&t)), try_run(|| c.backward(&t)));
+                let same = |a: &Option<Tensor>, b: &Option<Tensor>| match (a, b) { (Some(a), Some(b)) => rt(a) == rt(b), (None, None) => true, _ => false };
+                ctx.oracle(same(&fwd, &cf) && same(&bwd, &cb), "activation-copy-differs", "a copy of an activation function computes the same function and derivative, bit for bit",
+                    format!("{} {}", name, qt(&t)), format!("{} / {}", cf.as_ref().map(rt).unwrap_or("panic".into()), cb.as_ref().map(rt).unwrap_or("panic".into())),
+                    format!("{} / {}", fwd.as_ref().map(rt).unwrap_or("panic".into()), bwd.as_ref().map(rt).unwrap_or("panic".into())));
+            }
             // C07 oracles on well-formed flat / 3-D inputs
             let supported = matches!(t.data, Data::Single(_) | Data::Triple(_)) && shape_matches_data(&t) && !flat_any(&t).is_empty();
             if supported {
